@@ -14,6 +14,7 @@ import (
 	"github.com/relex/slog-agent/base/bconfig"
 	"github.com/relex/slog-agent/base/bsupport"
 	"github.com/relex/slog-agent/output/shared"
+	"golang.org/x/exp/slices"
 )
 
 // output-specific file extension for generated chunks
@@ -101,6 +102,14 @@ func (cfg *Config) NewForwarder(parentLogger logger.Logger, args base.ChunkConsu
 func (cfg *Config) VerifyConfig(schema base.LogSchema) error {
 	if len(cfg.Serialization.EnvironmentFields) == 0 {
 		return fmt.Errorf(".serialization.environmentFields is unspecified")
+	}
+	if _, err := schema.CreateFieldLocators(cfg.Serialization.EnvironmentFields); err != nil {
+		return fmt.Errorf(".serialization.environmentFields: %w", err)
+	}
+	for i, name := range cfg.Serialization.HiddenFields {
+		if slices.Index(schema.GetFieldNames(), name) == -1 {
+			return fmt.Errorf(".serialization.hiddenFields[%d]: field '%s' is not defined in schema", i, name)
+		}
 	}
 
 	for field, rewriteConfig := range cfg.Serialization.RewriteFields {
